@@ -111,7 +111,15 @@ def prngConc (c : Case) : Verdict :=
   if c.output.nat "mismatches" = some 0 ∧ c.output.get "got" = c.output.get "want" ∧ (c.output.get "got").isSome then .ok tag
   else .propFail tag "concurrent-draws-are-not-a-partition-of-the-stream"
 
+def prngRace (c : Case) : Verdict :=
+  match c.output.getD "race" "?" with
+  | "none" => if c.output.nat "mismatches" = some 0 then .ok "race-detector=clean"
+              else .propFail "race-detector=clean" "concurrent-draws-are-not-a-partition-of-the-stream"
+  | "detected" => .propFail "race-detector=report" "data-race-between-concurrent-calls-on-one-prng"
+  | "unavailable" => .ok "race-detector=unavailable"
+  | _ => .bad "prng_race: no result"
+
 /-- families served by this module (collected by the generated `DrvAll`). -/
-def families : List (String × (Case → Verdict)) := [("prng", prng), ("prng_conc", prngConc)]
+def families : List (String × (Case → Verdict)) := [("prng", prng), ("prng_conc", prngConc), ("prng_race", prngRace)]
 
 end Drv.C30
